@@ -339,6 +339,129 @@ def run_staged(ctx, r, drv):
             if len([x for x in r.samples if isinstance(x, dict) and 'staged' in str(x.get('case', ''))]) < 1:
                 r.samples.append(s_)
 
+BURST_INI = [
+    [],
+    ['--pika:ini=pika.thread_queue.max_thread_count=0'],            # add_count = -1: no budget at all
+    ['--pika:ini=pika.thread_queue.max_thread_count=40'],           # thread map over the limit: the "desperate" branch
+    ['--pika:ini=pika.thread_queue.min_add_new_count=3', '--pika:ini=pika.thread_queue.max_add_new_count=7'],
+    ['--pika:ini=pika.thread_queue.min_add_new_count=1', '--pika:ini=pika.thread_queue.max_add_new_count=1',
+     '--pika:ini=pika.thread_queue.max_thread_count=12'],
+]
+
+
+def burst_configs(ctx):
+    """(seed, policy, workers, rounds, extra runtime options) of the burst processes: all 8 policies on every run"""
+    rnd = random.Random(ctx.seed * 131 + 17)
+    out = []
+    k = 0
+    if ctx.tier == 'quick':
+        for p in POLICIES:
+            out.append((ctx.seed * 1000 + k, p, rnd.choice((1, 2, 3, 4)), 3, []))
+            k += 1
+        for p in ('shared-priority', 'local-priority-fifo', rnd.choice(POLICIES[1:7])):
+            out.append((ctx.seed * 1000 + k, p, 4, 3, []))
+            k += 1
+        for p in (rnd.choice(POLICIES[:7]), rnd.choice(POLICIES[:7])):
+            out.append((ctx.seed * 1000 + k, p, rnd.choice((2, 3)), 3, rnd.choice(BURST_INI[1:])))
+            k += 1
+    else:
+        for rep in range(2):
+            for p in POLICIES:
+                for t in (1, 2, 3, 4, 8):
+                    out.append((ctx.seed * 1000 + k, p, t, 6, []))
+                    k += 1
+        for p in POLICIES:
+            for ini in BURST_INI[1:]:
+                out.append((ctx.seed * 1000 + k, p, rnd.choice((1, 2, 3, 4)), 3, ini))
+                k += 1
+    return out
+
+
+def run_one_burst(ctx, r, hb, args):
+    """one process of harness/c01_burst.cpp: all workers inside non-yielding tasks while bursts larger than the conversion
+    batch are submitted (several paths, one queue gets > 64 / > 256 / > 1000 descriptions), then the workers are released"""
+    seed, policy, workers, rounds, extra = args
+    argv = [hb, str(seed), policy, str(workers), str(rounds)] + list(extra)
+    rc, out = sh(argv, timeout=400)
+    lines = out.split('\n')
+    rep = {'harness': 'c01_burst', 'args': [str(seed), policy, str(workers), str(rounds)] + list(extra)}
+    mons = [x for x in lines if x.startswith('MON ')]
+    cases = [x for x in lines if x.startswith('CASE ')]
+    for m in mons:
+        mm = m.split(' ')
+        kind = mm[3].split('=', 1)[1] if len(mm) > 3 and mm[3].startswith('kind=') else 'unknown'
+        r.hits.append(Hit('monitor', 'C01:burst:' + kind,
+                          'burst of staged work larger than the conversion batch (%s, %s workers%s): %s' % (
+                              policy, workers, (', ' + ' '.join(extra)) if extra else '', m[:1500]),
+                          dict(rep, line=m[:1500])))
+    inconc = [x for x in lines if x.startswith('INCONCLUSIVE ')]
+    if rc == 4 and inconc and not mons:
+        r.count('inconclusive_timeout')
+        r.notes.append('burst %s %s workers: %s' % (policy, workers, inconc[0]))
+    elif rc != 0 and not mons:
+        tail = ' | '.join([x for x in lines if x][-4:])
+        what = 'hang' if rc == 124 else 'crash'
+        r.hits.append(Hit('monitor', 'C01:burst:' + what,
+                          'c01_burst %s (rc=%d; a hang after the last CASE line is pika::finalize/stop not returning) under policy %s, %s workers%s: %s' % (
+                              what, rc, policy, workers, (', ' + ' '.join(extra)) if extra else '', tail[-900:]), dict(rep, rc=rc)))
+    elif rc == 0 and not [x for x in lines if x.startswith('SUMMARY ')]:
+        r.hits.append(Hit('tie', 'C01:burst_harness', 'c01_burst produced no SUMMARY line: ' + ' | '.join(lines[-4:])[:600], rep))
+    for cl in cases:
+        f = dict(x.split('=', 1) for x in cl.split(' ')[2:] if '=' in x)
+        r.evaluations += 1
+        r.count('burst policy=' + policy)
+        r.count('burst workers=' + str(workers))
+        if extra:
+            r.count('burst with thread_queue budget options')
+        r.count('burst_tasks', int(f.get('tasks', '0')))
+        one = max(int(f.get('staged_worker_t', '0')), int(f.get('one_queue_normal', '0')))
+        r.count('burst one queue > 64' if one > 64 else 'burst one queue <= 64')
+        if one > 256:
+            r.count('burst one queue > 256')
+        if one > 1000:
+            r.count('burst one queue > 1000')
+        if int(f.get('converted_before_release', '0')) > 0:
+            r.count('burst_converted_before_release', int(f['converted_before_release']))
+        if one > 64:
+            r.nontrivial('burst ' + policy + str(workers) + cl)
+    if cases and not [x for x in r.samples if isinstance(x, dict) and 'burst' in str(x.get('case', ''))]:
+        r.sample({'config': rep['args'], 'case': cases[0]})
+
+
+def _merge(r, rr, tag):
+    r.evaluations += rr.evaluations
+    r.traces += rr.traces
+    r.hits.extend(rr.hits)
+    r.notes.extend(rr.notes)
+    r.nontrivial_keys |= rr.nontrivial_keys
+    for k_, v in rr.dist.items():
+        r.count(k_, v)
+    for s_ in rr.samples[:1]:
+        if len([x for x in r.samples if isinstance(x, dict) and tag in str(x.get('case', ''))]) < 1:
+            r.samples.append(s_)
+
+
+def run_burst(ctx, r):
+    """bursts larger than the conversion batch: thread_queue::add_new (budget from add_new_always) and
+    thread_queue_mc::add_new (64 / 32) must move every staged description of an over-full queue; signatures C01:burst:<what>"""
+    hb = ctx.build_harness('c01_burst', 'c01_burst.cpp')
+    r.rule += ('; BURST (c01_burst, every run: all 8 scheduler policies, 1..4 workers, some processes with pika.thread_queue.* budget '
+               'options): every worker is kept inside a non-yielding task while the tasks themselves and an OS thread submit 100..400 x '
+               'workers tasks (register_work hinted to ONE worker: 65..400 or > 1000 descriptions in one staged queue; high / boost / low / '
+               'bound priority hinted to one worker; execute; register_work without hint; schedule(with_hint)|then), then the workers are '
+               'released: every body runs exactly once (progress-based watchdog) and the staged / pending counts return to 0; one '
+               'evaluation = one round; non-trivial = one queue held more than 64 descriptions')
+    from concurrent.futures import ThreadPoolExecutor
+
+    def one(a):
+        rr = Result()
+        run_one_burst(ctx, rr, hb, a)
+        return rr
+    with ThreadPoolExecutor(max_workers=3) as ex:
+        subs = list(ex.map(one, burst_configs(ctx)))
+    for rr in subs:
+        _merge(r, rr, 'burst')
+
 
 def run(ctx):
     if ctx.replay:
@@ -361,10 +484,18 @@ def run(ctx):
             hb = ctx.build_harness('c01_staged', 'c01_staged.cpp')
             run_one_staged(ctx, r, drv, hb, rep['args'])
             return r
+        if rep.get('harness') == 'c01_burst' and len(rep.get('args', [])) >= 4:
+            r = Result()
+            ctx.build_pika()
+            hb = ctx.build_harness('c01_burst', 'c01_burst.cpp')
+            a = rep['args']
+            run_one_burst(ctx, r, hb, (a[0], a[1], a[2], a[3], a[4:]))
+            return r
     r = run_modes(ctx, 'C01', ['c01', 'guard'], 'ExtractC01.v', 'drv_c01.ml', 'c01_trace.cpp', 'c01_trace')
     if not ctx.replay:
         drv = ctx.build_model('C01', 'ExtractC01.v', 'drv_c01.ml')
         run_stacks(ctx, r, drv)
         run_staged(ctx, r, drv)
+        run_burst(ctx, r)
         run_yield_to(ctx, r)
     return r
